@@ -36,12 +36,31 @@ def num(x):
     return frac(int(x.numerator), int(x.denominator))
 
 
+# Naming schemes.  0: "p00".."pNN".  1: realistic names in which one name is a proper prefix of another and the
+# continuation starts with characters below and above ',' -- rank = position in Python's string order, so
+# "lexicographic tie-breaking = smaller rank first" still holds.  The worker selects the scheme per case.
+_NAMES1 = sorted(["Park", "Park (north)", "Park +", "Park-side", "Road", "Road 2", "Road!", "Road2", "Zoo", "Zoo #1",
+                  "Zoo*", "Zoo.b", "Zoo/c", "Zz"])
+_RANK1 = {n: i for i, n in enumerate(_NAMES1)}
+_NAMING = 0
+
+
+def set_naming(k) -> None:
+    global _NAMING
+    _NAMING = int(k or 0)
+
+
 def pname(i: int) -> str:
+    if _NAMING == 1 and i < len(_NAMES1):
+        return _NAMES1[i]
     return "p%02d" % i
 
 
 def rank(p) -> int:
-    return int(str(p.name)[1:])
+    name = str(p.name)
+    if name in _RANK1:
+        return _RANK1[name]
+    return int(name[1:])
 
 
 def ranks(ps) -> list[int]:
